@@ -340,7 +340,14 @@ impl<'a> World<'a> {
                     self.env_adds.push((i, opts.env.unwrap_or(0)));
                 }
                 self.check_after_op(i, step, &out, &pre, &fired);
-                self.record_intended(i, opts, pre_len);
+                // new services are numbered after the highest recorded number (or the count, if larger)
+                let pre_base = crate::oracle::entries(&pre)
+                    .iter()
+                    .filter_map(|e| e.name.strip_prefix("antnode").and_then(|n| n.parse::<usize>().ok()))
+                    .max()
+                    .unwrap_or(0)
+                    .max(pre_len);
+                self.record_intended(i, opts, pre_len, pre_base);
                 self.check_add(i, opts, &out, &pre, &fired);
                 self.check_installs(i, step, &pre, &fired);
             }
@@ -876,7 +883,8 @@ impl<'a> World<'a> {
             };
             let node = &mut reg.nodes[index];
             let options = UpgradeOptions {
-                auto_restart: false,
+                // mirrors cmd/node.rs::upgrade (after the fix: the recorded setting, not `false`)
+                auto_restart: node.auto_restart,
                 env_variables,
                 force: use_force,
                 start_service: !do_not_start,
